@@ -58,7 +58,7 @@ fn umv_component_bits(rng: &mut Rng, style: u8) -> Vec<(u32, u8)> {
 fn adversarial(rng: &mut Rng, g: &mut DecGen, note: &mut String) -> PicSpec {
     let ptype = if g.has_ref && rng.chance(2, 3) { PType::P } else { PType::I };
     let mut s = gen_picture(rng, &g.cfg, g.fl.clone(), ptype, g.w, g.h, g.tr);
-    let kind = rng.below(14);
+    let kind = rng.below(15);
     match kind {
         0 => {
             *note = "adversarial: more macroblocks than the picture holds".into();
@@ -270,6 +270,34 @@ fn adversarial(rng: &mut Rng, g: &mut DecGen, note: &mut String) -> PicSpec {
                 s.tail_stuffing = 1 + rng.below(3) as u8;
             }
         }
+        13 => {
+            *note = "adversarial: flood (thousands of stuffing codewords / extension bytes at one position)".into();
+            let n = *rng.pick(&[300usize, 300, 3000, 3000, 20_000, 70_000]);
+            if rng.chance(3, 4) {
+                // macroblock stuffing: COD (non-intra pictures) + the 9-bit stuffing codeword, n times,
+                // in front of macroblock `at`
+                let at = rng.usize(s.mbs.len() + 1);
+                let tail: Vec<MbSpec> = s.mbs.split_off(at);
+                let intra = s.ptype == PType::I;
+                for _ in 0..n {
+                    if !intra {
+                        s.extra_bits.push((0, 1));
+                    }
+                    s.extra_bits.push((1, 9));
+                }
+                // the remaining macroblocks follow the flood
+                let mut rest = s.clone();
+                rest.mbs = tail;
+                rest.extra_bits.clear();
+                rest.pei.clear();
+                let (bytes, m) = encode(&rest);
+                for bit in m.header_end..m.total_bits {
+                    s.extra_bits.push((((bytes[bit / 8] >> (7 - bit % 8)) & 1) as u32, 1));
+                }
+            } else {
+                s.pei = rng.bytes(n.min(20_000));
+            }
+        }
         _ => {
             *note = "adversarial: temporal reference equal to an earlier picture's".into();
             s.tr = g.tr.wrapping_sub(1 + rng.below(2) as u8);
@@ -341,7 +369,7 @@ pub fn gen_session(rng: &mut Rng, mix: &Mix) -> Session {
         let mut cfg = GenCfg::draw(rng, flavours);
         cfg.scal = opts & 2 != 0 && rng.chance(7, 8);
         let class = rng.weighted(&mix.size_classes) as u8;
-        let (w, h) = gen_size(rng, class);
+        let (w, h) = if cfg.is_sorenson() && rng.chance(1, 40) { gen_fixed_sorenson_size(rng, false) } else { gen_size(rng, class) };
         let (fl, w, h) = flavour_for(rng, &cfg, w, h);
         s.events.push(Ev::New { d, opts });
         gens.push(DecGen { opts, cfg, w, h, fl, tr: rng.byte(), has_ref: false, pics_in_reader: 0, pending: None });
@@ -396,7 +424,8 @@ pub fn gen_session(rng: &mut Rng, mix: &Mix) -> Session {
                 } else {
                     PType::P
                 };
-                let spec = gen_picture(rng, &g.cfg, g.fl.clone(), ptype, g.w, g.h, g.tr);
+                let flq = requalify(rng, &g.fl, g.w, g.h);
+                let spec = gen_picture(rng, &g.cfg, flq, ptype, g.w, g.h, g.tr);
                 let mut transit = Vec::new();
                 if kind == 1 {
                     let (bytes, m) = encode(&spec);
@@ -532,6 +561,7 @@ pub fn judge_no_crash(s: &Session, recs: &[Rec], st: &mut Stats) -> Option<Viola
 impl Property for C01 {
     type Plan = Session;
     const ID: &'static str = "C01";
+    const JUDGES_CRASHES: bool = true;
     const LEVEL: &'static str = "exploration";
     const RULE: &'static str = "seeded sessions of 1-3 decoders (all 4 option combinations) x up to 16 events; each decode consumes a valid picture, a valid picture through 1-3 transit faults, an adversarially structured picture, random bytes behind a valid header, or raw random bytes, delivered whole / split with a call in between / trickled, with source faults armed on random reads. evaluations = decode calls actually made (size-screened inputs excluded). A case is non-trivial if the call got past the start code (>= 6 source bytes consumed) or succeeded; distinct by (decoder state digest before the call, input bytes).";
     fn runs(tier: Tier) -> u64 {
